@@ -121,6 +121,8 @@ pub struct ClientRec {
     pub ready_seq: Option<u64>,
     pub salt: Option<[u8; 4]>,
     pub password_sent: Option<Vec<u8>>,
+    /// the exact bytes sent in reply to the MD5 challenge (whatever the behaviour)
+    pub password_msg: Option<Vec<u8>>,
     pub params: BTreeMap<String, String>,
     pub key: Option<(i32, i32)>,
     pub startup_msgs: Vec<Msg>,
